@@ -1,7 +1,7 @@
 (* C03 — Only needed providers run; the final function and Required providers always run. *)
 From Coq Require Import List Arith Bool.
 Import ListNotations.
-From NJ Require Import Base Registry Classify Select Reorder Machine Spec Bind SelectProofs Refine Chain.
+From NJ Require Import Base Registry Classify Select Reorder Machine Spec Bind SelectProofs Refine Chain SpecLemmas WfProofs EndToEnd.
 
 (* Whatever the elimination heuristics did: if selection succeeds then every included provider
    has, under the final include marks, an included source for every input / received / init-return
@@ -40,3 +40,35 @@ Theorem C03_executed_are_included : forall c pl b,
     snd m = snd s /\ ss_w W (fst m) = sq_w W (fst s).
 Proof. exact chain_refines. Qed.
 Print Assumptions C03_executed_are_included.
+
+(* End to end and with no hypothesis about the plan (cases without Reorder annotation and init
+   function): whatever is logged during a session of a bound chain is the invoke function or an
+   included provider of the working list - an excluded provider never runs. *)
+Theorem C03_only_included_providers_run : forall (c : bcase) (pl : plan) (b : bound),
+  plain_case c = true -> bc_init c = None -> bind_chain c = Ok (pl, b) ->
+  forall (ncalls : nat -> nat) (k : nat) (x : nat),
+    In x (ss_w (list nat) (fst (run_session (list nat) o_fn (o_wrap ncalls) b (mkSess (list nat) [] (bd_base0 b) false true) (repeat DoInvoke k)))) ->
+    In x (map p_pid (filter p_include (pl_funcs pl))).
+Proof.
+  intros c pl b Hpc Hni Hb ncalls k x Hx.
+  destruct (plain_chain_log c pl b Hpc Hni Hb) as (sp & Hsp & Hlog). rewrite (Hlog ncalls k []) in Hx. cbn [app] in Hx.
+  destruct (plan_listq c pl (bind_chain_plan c pl b Hb)) as (_ & Hsl & _).
+  destruct (splan_pids (bc_te c) pl sp Hsp Hsl) as [Hst Hrun]. cbv zeta in Hst, Hrun.
+  assert (Hsub : forall g y, In y (map p_pid (filter (fun p => p_include p && g p) (pl_funcs pl))) -> In y (map p_pid (filter p_include (pl_funcs pl)))).
+  { intros g y Hy. apply in_map_iff in Hy. destruct Hy as (p & <- & Hp). apply filter_In in Hp. destruct Hp as [Hp Hi].
+    apply andb_true_iff in Hi. destruct Hi as [Hi _]. apply in_map. apply filter_In. split; assumption. }
+  destruct (session_log_in ncalls sp x k true Hx) as [->|[H|H]].
+  - (* the invoke function is one of the included providers *)
+    unfold splan_of in Hsp. cbv zeta in Hsp.
+    destruct (filter (fun pz : prov * list nat => class_eqb (p_class (fst pz)) ClInvoke) _) as [|iv [|? ?]] eqn:Ei; try discriminate Hsp.
+    assert (Hiv : In iv (iv :: nil)) by (left; reflexivity). rewrite <- Ei in Hiv.
+    apply filter_In in Hiv. destruct Hiv as [Hiv _]. apply filter_In in Hiv. destruct Hiv as [Hiv Hinc].
+    assert (Hpid : r_pid (sp_invoke sp) = p_pid (fst iv)).
+    { destruct (filter (fun pz : prov * list nat => class_eqb (p_class (fst pz)) ClInit) _) as [|it [|? ?]]; try discriminate Hsp;
+        injection Hsp as <-; reflexivity. }
+    rewrite Hpid. apply in_map. apply filter_In. split; [|exact Hinc].
+    rewrite <- (allocate_slots_funcs (pl_funcs pl) (pl_invokeIndex pl)), <- Hsl. apply in_map, Hiv.
+  - rewrite Hst in H. eapply Hsub, H.
+  - rewrite Hrun in H. apply in_app_or in H. destruct H as [H|H]; eapply Hsub, H.
+Qed.
+Print Assumptions C03_only_included_providers_run.
